@@ -24,6 +24,16 @@ func Dir() string {
 	return "/verif"
 }
 
+// OutDir returns where evidence/ and violations/ are written: /verif, unless
+// VERIF_OUT_DIR redirects them (used when a check is run against a seeded
+// change, so that the committed evidence is not overwritten).
+func OutDir() string {
+	if d := os.Getenv("VERIF_OUT_DIR"); "" != d {
+		return d
+	}
+	return Dir()
+}
+
 // RepoDir returns the repository being checked.
 func RepoDir() string {
 	if d := os.Getenv("VERIF_REPO_DIR"); "" != d {
@@ -226,7 +236,7 @@ func (r *Result) Finish() int {
 		unlisted++
 		/* Write a replay artefact. */
 		h := sha256.Sum256([]byte(v.Signature))
-		p := filepath.Join(Dir(), "violations", fmt.Sprintf(
+		p := filepath.Join(OutDir(), "violations", fmt.Sprintf(
 			"%s-%s.json", r.Property, hex.EncodeToString(h[:6]),
 		))
 		os.MkdirAll(filepath.Dir(p), 0o755)
@@ -275,7 +285,7 @@ func (r *Result) Finish() int {
 	if nil != err {
 		Broken("marshal evidence: %s", err)
 	}
-	ep := filepath.Join(Dir(), "evidence", r.Property+".json")
+	ep := filepath.Join(OutDir(), "evidence", r.Property+".json")
 	os.MkdirAll(filepath.Dir(ep), 0o755)
 	if err := os.WriteFile(ep, append(b, '\n'), 0o644); nil != err {
 		Broken("write evidence: %s", err)
